@@ -399,7 +399,18 @@ func vRunC17History(h *vHist, steps int, allowZero bool) {
 	for i := 0; i < steps && !h.stopped; i++ {
 		o := owners[r.Intn(len(owners))]
 		gap := r.Intn(3)
-		switch r.Pick([]int{10, 3, 2, 2, 6, 2, 2, 2}) {
+		switch r.Pick([]int{10, 3, 2, 2, 6, 2, 2, 2, 3}) {
+		case 8: // a certificate another account has registered (or merely tried), byte for byte, under the own name
+			if len(all) == 0 {
+				continue
+			}
+			x := all[r.Intn(len(all))]
+			other := owners[(x.owner.Idx+1+r.Intn(2))%len(owners)]
+			if other == x.owner {
+				other = h.actor("outsider", 0)
+			}
+			msg := &ctypes.MsgCreateCertificate{Owner: other.Bech, Cert: x.msg.Cert, Pubkey: x.msg.Pubkey}
+			h.DoNote("cert/create-identical-bytes-of-another-account", gap, other, msg)
 		case 0: // create
 			s := vC17Serials(r)
 			if s.Sign() == 0 && !allowZero {
@@ -462,7 +473,7 @@ func vRunC17History(h *vHist, steps int, allowZero bool) {
 
 func TestVerif_C17(t *testing.T) {
 	res := vs.NewResult("C17", "exploration",
-		"create/revoke histories by 3 owners with serials {0,1,127,128,255,256,65535,65536,2^63,2^64,2^64+1,2^159, random 160-bit, 2^160,2^160+1,2^160+256,2^200, 21..24 octets behind one common 20-octet head, random 256-bit} (big-endian encodings prefix one another), duplicates, foreign CNs, foreign and forged signers; after every tx an append-only model is compared with keeper lookups for every (owner,serial) ever named and with the real gRPC querier for every filter shape (none/owner/owner+serial x state) x page sizes {0,1,2,3} x {key,offset} pagination followed to the end. distinct = (message kind, result, registry size, right signer)")
+		"create/revoke histories by 3 owners with serials {0,1,127,128,255,256,65535,65536,2^63,2^64,2^64+1,2^159, random 160-bit, 2^160,2^160+1,2^160+256,2^200, 21..24 octets behind one common 20-octet head, random 256-bit} (big-endian encodings prefix one another), duplicates, foreign CNs, certificates of another account resubmitted byte for byte under the own name, foreign and forged signers; after every tx an append-only model is compared with keeper lookups for every (owner,serial) ever named and with the real gRPC querier for every filter shape (none/owner/owner+serial x state) x page sizes {0,1,2,3} x {key,offset} pagination followed to the end. distinct = (message kind, result, registry size, right signer)")
 	res.Assume("chain driven at the ABCI boundary; the querier is called in-process with the deliver-state context (no gRPC transport)")
 	for _, f := range []string{"created", "revoked", "duplicate_create_rejected", "foreign_create_rejected", "double_revoke_rejected", "revoke_unknown_rejected", "foreign_revoke_rejected", "listings",
 		"created_serial_class:zero", "created_serial_class:1byte", "created_serial_class:upto64bit", "created_serial_class:above64bit", "created_serial_class:above160bit"} {
